@@ -938,13 +938,13 @@ pub fn run_c02(r: &Runner) {
     let g = GenSpec { kinds: &ALL_KINDS, profile: Profile { truncate: 16, mutate: 80, ..Profile::DEFAULT }, generous_cap: false, cfg_mask: 0x7f, cfg_entry_only: false };
     r.par_random(
         "G1 bases × all split points (each prefix in its own exact-length guard-page buffer)",
-        r.amount(60_000, 2_000_000),
+        r.amount(800_000, 10_000_000),
         160,
         |u: &mut Choice| g1_case(u, "prefix", &g),
         &|ctx, l, rec| check_c02(r, ctx, l, rec),
     );
     // G2: exhaustive header strings × all prefixes
-    hdr_exhaustive(r, "header strings (11-symbol alphabet) × 8 contexts × option combos × all prefixes", if r.quick() { 3 } else { 5 }, &all_opt_combos(), "prefix", check_c02);
+    hdr_exhaustive(r, "header strings (11-symbol alphabet) × 8 contexts × option combos × all prefixes", if r.quick() { 4 } else { 5 }, &all_opt_combos(), "prefix", check_c02);
     // lane-phase bases: long targets / values / reasons with an offending byte late
     r.par_enum("long fields (every length 0..=80) × {valid, DEL inside, NUL inside} × 4 elements × all prefixes", 81 * 3 * 4, |ctx, l, idx| {
         let len = (idx % 81) as usize;
@@ -970,7 +970,7 @@ pub fn run_c03(r: &Runner) {
     let g = GenSpec { kinds: &ALL_KINDS, profile: Profile { truncate: 40, ..Profile::DEFAULT }, generous_cap: false, cfg_mask: 0x7f, cfg_entry_only: false };
     r.par_random(
         "G1 messages with trailing bodies (bodies contain CRLFCRLF / header-looking lines)",
-        r.amount(3_000_000, 60_000_000),
+        r.amount(10_000_000, 150_000_000),
         160,
         |u: &mut Choice| g1_case(u, "frame", &g),
         &|ctx, l, rec| check_c03(r, ctx, l, rec),
@@ -979,7 +979,7 @@ pub fn run_c03(r: &Runner) {
     let g2 = GenSpec { kinds: &MSG_KINDS, profile: Profile::LENIENT, generous_cap: true, cfg_mask: 0x7f, cfg_entry_only: true };
     r.par_random(
         "G1 lenient-weighted messages (folds, leading whitespace, ignored lines)",
-        r.amount(1_500_000, 30_000_000),
+        r.amount(5_000_000, 80_000_000),
         160,
         |u: &mut Choice| g1_case(u, "frame", &g2),
         &|ctx, l, rec| check_c03(r, ctx, l, rec),
@@ -992,7 +992,7 @@ pub fn run_c04(r: &Runner) {
         set_backend(be);
         r.par_random(
             &format!("G1 messages, all outcomes, backend {}", backend_name(be)),
-            r.amount(1_200_000, 25_000_000),
+            r.amount(3_000_000, 40_000_000),
             160,
             |u: &mut Choice| {
                 let mut rec = g1_case(u, "zerocopy", &g);
@@ -1007,7 +1007,7 @@ pub fn run_c04(r: &Runner) {
     let g2 = GenSpec { kinds: &RR_KINDS, profile: Profile::LENIENT, generous_cap: true, cfg_mask: 0x7f, cfg_entry_only: true };
     r.par_random(
         "G1 lenient-weighted messages",
-        r.amount(1_000_000, 20_000_000),
+        r.amount(3_000_000, 40_000_000),
         160,
         |u: &mut Choice| g1_case(u, "zerocopy", &g2),
         &|ctx, l, rec| check_c04(r, ctx, l, rec),
@@ -1021,7 +1021,7 @@ pub fn run_c05(r: &Runner) {
     let g = GenSpec { kinds: &MSG_KINDS, profile: Profile::DEFAULT, generous_cap: true, cfg_mask: 0x7f, cfg_entry_only: false };
     r.par_random(
         "G1 messages with mutations",
-        r.amount(2_000_000, 40_000_000),
+        r.amount(8_000_000, 120_000_000),
         160,
         |u: &mut Choice| g1_case(u, "hygiene", &g),
         &|ctx, l, rec| check_c05(r, ctx, l, rec),
@@ -1029,7 +1029,7 @@ pub fn run_c05(r: &Runner) {
     let g2 = GenSpec { kinds: &RR_KINDS, profile: Profile::LENIENT, generous_cap: true, cfg_mask: 0x7f, cfg_entry_only: true };
     r.par_random(
         "G1 lenient-weighted messages",
-        r.amount(1_500_000, 30_000_000),
+        r.amount(6_000_000, 80_000_000),
         160,
         |u: &mut Choice| g1_case(u, "hygiene", &g2),
         &|ctx, l, rec| check_c05(r, ctx, l, rec),
@@ -1040,7 +1040,7 @@ pub fn run_c15(r: &Runner) {
     let g = GenSpec { kinds: &RR_KINDS, profile: Profile::CLEAN, generous_cap: false, cfg_mask: 0, cfg_entry_only: true };
     r.par_random(
         "part 1: G1 mostly-valid messages; each default-Complete one × all 128 configs",
-        r.amount(80_000, 2_000_000),
+        r.amount(600_000, 8_000_000),
         160,
         |u: &mut Choice| g1_case(u, "c15-default-accepted", &g),
         &|ctx, l, rec| check_c15(r, ctx, l, rec),
@@ -1051,7 +1051,7 @@ pub fn run_c15(r: &Runner) {
     let g2 = GenSpec { kinds: &RR_KINDS, profile: Profile::LENIENT, generous_cap: false, cfg_mask: 0x7f, cfg_entry_only: true };
     r.par_random(
         "part 2: any G1 buffer × a config pair differing only in other-kind options",
-        r.amount(2_000_000, 40_000_000),
+        r.amount(8_000_000, 120_000_000),
         164,
         |u: &mut Choice| {
             let mut rec = g1_case(u, "c15-other-kind", &g2);
@@ -1092,7 +1092,7 @@ pub fn run_c16(r: &Runner) {
     let g = GenSpec { kinds: &RR_KINDS, profile: Profile::DEFAULT, generous_cap: false, cfg_mask: 0x7f, cfg_entry_only: true };
     r.par_random(
         "G1 messages × configs × capacities 0..=k+2: the 4 request / 4 response entry points",
-        r.amount(1_500_000, 30_000_000),
+        r.amount(6_000_000, 80_000_000),
         160,
         |u: &mut Choice| g1_case(u, "c16-same-kind", &g),
         &|ctx, l, rec| check_c16(r, ctx, l, rec),
@@ -1101,7 +1101,7 @@ pub fn run_c16(r: &Runner) {
     let g2 = GenSpec { kinds: &HK, profile: Profile::DEFAULT, generous_cap: false, cfg_mask: 0, cfg_entry_only: true };
     r.par_random(
         "G1 header blocks: parse_headers(h) vs 6 start lines + h (request and response)",
-        r.amount(600_000, 12_000_000),
+        r.amount(2_000_000, 30_000_000),
         160,
         |u: &mut Choice| g1_case(u, "c16-headers-vs-message", &g2),
         &|ctx, l, rec| check_c16(r, ctx, l, rec),
@@ -1124,7 +1124,7 @@ pub fn run_c17(r: &Runner) {
     let g = GenSpec { kinds: &MSG_KINDS, profile: Profile { max_headers: 12, truncate: 40, ..Profile::DEFAULT }, generous_cap: false, cfg_mask: 0x7f, cfg_entry_only: false };
     r.par_random(
         "G1 blocks with k=0..12 header lines × capacity around k × all entry points × configs; sentinel/poison-prefilled arrays",
-        r.amount(1_500_000, 30_000_000),
+        r.amount(6_000_000, 80_000_000),
         164,
         |u: &mut Choice| {
             let mut rec = g1_case(u, "storage", &g);
